@@ -5,7 +5,9 @@ import Interceptor.Spec.Nack
 Drivers for C03.
   receivelog / receivelog-spec : ops `new size=S` | `add seq=Q` | `missing skip=K`
   nackgen / nackgen-spec       : ops `cfg size=S skip=K max=M` | `bind ssrc=A nack=0|1` | `unbind ssrc=A` |
-                                 `rtp ssrc=A seq=Q` | `rtperr ssrc=A` | `rtpbad ssrc=A` | `tick` | `ticks n=N`
+                                 `rtp ssrc=A seq=Q` | `rtperr ssrc=A` | `rtpbad ssrc=A` | `tick` | `ticks n=N` | `failnext n=K`
+`failnext n=K` makes the harness' RTCP writer fail K times; a NACK handed to a failing writer has still been
+written by the interceptor, so the op changes nothing in model or specification.
 The `-spec` components run the abstract specification (Spec/Nack.lean) on the same op lines.
 -/
 namespace Interceptor.Driver.Nack
@@ -114,6 +116,10 @@ def nackgenStep (s : GState) (ts : List String) : GState × List String :=
         match want m 4294967295 ["ssrc"] with
         | some [_] => (s, [])                    -- a failed read / unparsable header is not recorded
         | _ => (s, ["bad-op"])
+      | "failnext", some _ =>
+        match want m 1000000 ["n"] with
+        | some [n] => if n = 0 then (s, ["bad-op"]) else (s, [])   -- the writer's result is not an input of the tick
+        | _ => (s, ["bad-op"])
       | "tick", some g =>
         if !m.isEmpty then (s, ["bad-op"]) else
         let (g', out) := ReceiveLog.tick g
@@ -188,6 +194,10 @@ def nackgenSpecStep (s : SState) (ts : List String) : SState × List String :=
       | "rtperr", some _ | "rtpbad", some _ =>
         match want m 4294967295 ["ssrc"] with
         | some [_] => (s, [])
+        | _ => (s, ["bad-op"])
+      | "failnext", some _ =>
+        match want m 1000000 ["n"] with
+        | some [n] => if n = 0 then (s, ["bad-op"]) else (s, [])
         | _ => (s, ["bad-op"])
       | "tick", some cfg =>
         if !m.isEmpty then (s, ["bad-op"]) else
